@@ -2,6 +2,7 @@
 persistence call (with a storage effect, C16) from each front end; boot recovery re-inserts them."""
 from ..cfg import Body
 from ..report import where
+from ..facts import in_module
 from . import c16
 from .c32 import _Collect
 
@@ -34,7 +35,7 @@ def run(ctx, F, cg):
             continue
         r = cs[0]
         ctx.saw_fn(r["path"])
-        par = cg.reach([r["path"]], cha=False, stop=lambda p: p.startswith("samyama::query::executor::") or p.startswith("samyama::graph::"))
+        par = cg.reach([r["path"]], cha=False, stop=lambda p: in_module(p, "samyama::query::executor::") or in_module(p, "samyama::graph::"))
         reached = {p.replace(PM, "") for p in par if p.startswith(PM + "persist_")}
         for kind, fns in KINDS:
             inst = "%s|%s" % (name, kind.split(" ")[0])
